@@ -52,7 +52,25 @@
 //! `execute_stream` (CoalescePartitionsExec on top) or, case flag `coalesce=false`, as one stream per
 //! output partition polled round-robin and dropped together.
 //!
-//! Sensitivity probes (tools/mutrun, quick tier): see the end of this header.
+//! Genuine defect found (open in known_findings.json, signature
+//! `ensure-coop-skips-leaf-under-coop-exchange`, case regressions/C19/c19/…, proposed repair
+//! fixes/C19-ensure-coop-eager-ancestor-resets-context.diff): `EnsureCooperative` does not wrap a
+//! NonCooperative leaf when its nearest cooperative-or-eager ancestor is an exchange that is both
+//! Cooperative and Eager (CoalescePartitionsExec, RepartitionExec, SortPreservingMergeExec): the
+//! exchange polls the subtree from its own tasks, so e.g. `AggregateExec(Partial)` / `SortExec`
+//! over an always-ready custom source never yields and abort / timeout cannot take effect.
+//! `known_signature` builds the plan of a Coop case and matches when a harness leaf is left without
+//! a `CooperativeExec` parent; those cases are excluded (counted in `known_excluded`), everything
+//! else (StreamingTable sources, wrapped leaves, all Drop cases) continues.
+//!
+//! Sensitivity probes (tools/mutrun … ./check C19 quick):
+//!  1. common-runtime/src/common.rs: `SpawnedTask::drop` no longer aborts → VIOLATION (hang=Parked,
+//!     RepartitionExec: "still held after 10000 scheduler steps: live_streams 1, tasks 2").
+//!  2. physical-plan/src/repartition/mod.rs: `abort_helper` Arc leaked (`mem::forget` of a clone)
+//!     → VIOLATION (same shape). Before hanging sources were added this probe stayed green: with
+//!     finite inputs the un-aborted tasks simply run to their end within the settle bound.
+//!  3. physical-plan/src/streaming.rs: `StreamingTableExec::execute` without `make_cooperative`
+//!     → see the report (Coop kind, provider=streaming-table).
 use crate::build::*;
 use crate::env::Held;
 use datafusion::common::DataFusionError;
@@ -711,7 +729,7 @@ impl Property for C19 {
         case_strategy(tier)
     }
     fn budget(&self, tier: Tier) -> Budget {
-        Budget::new(tier.pick(1_200, 60_000), tier.pick(8, 16)).min_nontrivial(tier.pick(300, 15_000)).case_timeout(180)
+        Budget::new(tier.pick(800, 60_000), tier.pick(8, 16)).min_nontrivial(tier.pick(200, 15_000)).case_timeout(180)
     }
     fn rule(&self) -> String {
         "case = plan shape (9 direct physical shapes, 16 SQL shapes) x scripted inputs (1-3 partitions, Rows/Pending/Error steps) x runtime flavour x knobs; \
